@@ -1147,6 +1147,48 @@ def as_map(v):
     return None
 
 
+def as_dict_map(v):
+    """View a dict-valued IR as `{kbody: vbody for K, X in T.items() if filters}`  ->  (K, X, kbody, vbody, T, filters) or None, with
+    K / X bound variables standing for a key of T and its value.  Understood: T itself, copies (`T.copy()`, `dict(T)`), a dict
+    comprehension over `T.items()` (or over a map of it), `dict(zip(<unfiltered map over T / T.keys()>, <unfiltered map over
+    T.values()>))` and `dict(<pairs>)` -- the spellings of "T re-keyed / re-valued entry by entry"."""
+    K, X = ("bv", "_k", next(_fresh)), ("bv", "_v", next(_fresh))
+    while v[0] == "copy" or (v[0] == "call" and v[1] in (("global", "dict"), ("global", "OrderedDict")) and len(v[2]) == 1 and not v[3] and v[2][0][0] != "comp"
+                             and not (v[2][0][0] == "call" and v[2][0][1] == ("global", "zip"))):
+        v = v[1] if v[0] == "copy" else v[2][0]
+    if v[0] == "call" and v[1] in (("global", "dict"), ("global", "OrderedDict")) and len(v[2]) == 1 and not v[3]:
+        inner = v[2][0]
+        if inner[0] == "call" and inner[1] == ("global", "zip") and len(inner[2]) == 2 and not inner[3]:
+            mk, mv = as_map(inner[2][0]), as_map(inner[2][1])
+            if mk is None or mv is None or mk[3] or mv[3]:
+                return None
+            tk = mk[2][1] if mk[2][0] == "meth" and mk[2][2] == "keys" and not mk[2][3] else mk[2]
+            if not (mv[2][0] == "meth" and mv[2][2] == "values" and not mv[2][3] and mv[2][1] == tk):
+                return None
+            return (K, X, simp(subst(mk[1], {mk[0]: K})), simp(subst(mv[1], {mv[0]: X})), tk, ())
+        if inner[0] == "comp" and inner[1] in ("list", "gen"):
+            v = ("comp", "dict", inner[2], inner[3])        # dict(<pairs>) of a comprehension of pairs
+        else:
+            return None
+    if v[0] == "comp" and v[1] == "dict" and len(v[3]) == 1:
+        tg, it, ifs = v[3][0]
+        if v[2][0] != "tuple" or len(v[2][1]) != 2:
+            return None
+        if it[0] == "meth" and it[2] == "items" and not it[3] and tg is not None and tg[0] == "tuple" and len(tg[1]) == 2 \
+                and all(t is not None and t[0] == "bv" for t in tg[1]):
+            sub = {tg[1][0]: K, tg[1][1]: X}
+            return (K, X, simp(subst(v[2][1][0], sub)), simp(subst(v[2][1][1], sub)), it[1], tuple(simp(subst(c, sub)) for c in ifs))
+        if tg is not None and tg[0] == "bv" and (it[0] in ("attr", "param", "global") or (it[0] == "meth" and it[2] == "keys" and not it[3])):
+            # over the keys, the value looked up: {f(k): T[k] for k in T}
+            T = it[1] if it[0] == "meth" else it
+            sub = {("sub", T, tg): X, tg: K}
+            return (K, X, simp(subst(v[2][1][0], sub)), simp(subst(v[2][1][1], sub)), T, tuple(simp(subst(c, sub)) for c in ifs))
+        return None
+    if v[0] in ("attr", "param", "global"):
+        return (K, X, K, X, v, ())
+    return None
+
+
 def seq_base(v):
     """Base sequence of a position-preserving (unfiltered, one-to-one) view, else None."""
     if v[0] in ("phi", "ifexp"):
